@@ -530,7 +530,7 @@ func TestVerif_C28RequestsChild(t *testing.T) {
 	}
 	// contain runaway allocations: a request of a few MB that makes the process map
 	// more than 16 GiB is a crash ("runtime: out of memory") on any host
-	_ = syscall.Setrlimit(syscall.RLIMIT_AS, &syscall.Rlimit{Cur: 16 << 30, Max: 16 << 30})
+	_ = syscall.Setrlimit(syscall.RLIMIT_AS, &syscall.Rlimit{Cur: 4 << 30, Max: 4 << 30})
 	if batch.Scale > 1 {
 		debug.SetMaxStack(1_000_000_000 / batch.Scale)
 	}
@@ -565,6 +565,12 @@ func TestVerif_C28RequestsChild(t *testing.T) {
 			}
 		}
 		wal.Done(i, note)
+		if strings.HasPrefix(note, "HANG") {
+			// the request is still being processed somewhere in this process; whatever it does
+			// (memory, CPU) would be blamed on the following requests: end this child here,
+			// the parent continues with a fresh one
+			return
+		}
 		if only {
 			break
 		}
@@ -578,10 +584,7 @@ func TestVerif_C28RequestsChild(t *testing.T) {
 		node.metric("trace_send_kept")+node.metric("trace_send_dropped"), node.sinkEvents.Load()))
 }
 
-var _ = sync.Mutex{}
 var _ = sort.Strings
-var _ = base64.StdEncoding
-var _ = bytes.Equal
 
 // -------------------------------------------------------------------------------------
 // Parent: node profiles (validated configuration + rules reading the fuzzed fields)
@@ -1235,7 +1238,9 @@ func (g *c28Gen) libhoneyBody(batch bool, extreme bool) (body []byte, ct string,
 			class += "/literal"
 		}
 	case k == 17: // moderate nesting
-		d := verifkit.Pick(rng, 50, 299, 301, 1000, 9999, 10001, 100001)
+		// decoder depth limits sit at 300 (fastjson), 10000 (jsoniter), 100000 (msgp); divided
+		// by scale like every other nesting depth (the quick tier is a 1/16 model)
+		d := verifkit.Pick(rng, 50, 299, 301, 1000, 9999, 10001, 100001) / g.scale
 		if msgpack {
 			body = append(append([]byte{0x81, 0xa1, 'a'}, c28Nest([]byte{0x91}, d)...), 0xc0)
 			if batch {
@@ -1763,8 +1768,8 @@ func (g *c28Gen) otlpPayload(logs bool, asJSON bool, extreme bool, limit int) ([
 	case k == 16:
 		return c28Random(rng, rng.Range(0, 200)), fam + "/random"
 	case k == 17:
-		d := verifkit.Pick(rng, 99, 101, 1000, 9999, 10001)
-		return c28DeepOTLP(logs, rng.Intn(2), d*8), fam + "/nest"
+		d := verifkit.Pick(rng, 99, 101, 1000, 9999, 10001) / g.scale
+		return c28DeepOTLP(logs, rng.Intn(2), d*8+8), fam + "/nest"
 	case k == 18:
 		// length prefixes pointing past the end / negative / zero field numbers / groups
 		return verifkit.Pick(rng,
@@ -2024,7 +2029,7 @@ func TestVerif_C28Requests(t *testing.T) {
 	run.Assume("quick tier: goroutine stacks are limited to 1/16 of the runtime default (62.5 MB instead of 1 GB) and maximal-nesting inputs are 1/16 of what the body size limits (5 MB libhoney, 20 MiB OTLP/HTTP, 15 MB gRPC) admit, assuming stack use linear in nesting depth; thorough tier: runtime default and full-size inputs")
 	run.Assume("a crash is attributed to the request named by the write-ahead log; when it does not reproduce with per-request draining the witness is the preceding window of requests")
 
-	scale, watchdog := 16, 60*time.Second
+	scale, watchdog := 16, 10*time.Second
 	n, perBatch, extremes, lanes := 6000, 1000, 6, 3
 	if run.Thorough() {
 		scale, watchdog = 1, 300*time.Second
@@ -2103,16 +2108,27 @@ func TestVerif_C28Requests(t *testing.T) {
 				out := verifkit.RunChild(dir, c28ChildTest, bd.file, start, childTimeout)
 				res.outcomes = append(res.outcomes, out)
 				res.starts = append(res.starts, start)
-				if out.CrashedAt < 0 {
+				next := -1
+				if out.CrashedAt >= 0 {
+					next = out.CrashedAt + 1
+				} else if out.CrashedAt == -1 {
+					for i, note := range out.Done {
+						if strings.HasPrefix(note, "HANG") && i+1 > next {
+							next = i + 1 // the child ended itself after a hang
+						}
+					}
+				}
+				if next < 0 {
 					break
 				}
-				start = out.CrashedAt + 1
+				start = next
 			}
 		}(bi, bd)
 	}
 	wg.Wait()
 
 	// ---- evaluate ----
+	attributed := map[string]bool{} // signatures whose witness has already been pinned down by a replay
 	for bi, bd := range batches {
 		res := results[bi]
 		nreq := bd.hi - bd.lo
@@ -2138,15 +2154,26 @@ func TestVerif_C28Requests(t *testing.T) {
 					continue
 				}
 				if oc == "hang" {
-					hung := 0
-					for k := 0; k < 2; k++ {
-						o2 := verifkit.RunChild(dir, c28ChildTest, bd.file, i, 3*watchdog+time.Minute, "VERIF_CHILD_ONLY=1")
-						if strings.HasPrefix(o2.Done[i], "HANG") || (o2.TimedOut && o2.CrashedAt == i) {
+					// must reproduce alone 2/2 (the two confirmations run side by side)
+					var o2 [2]verifkit.ChildOutcome
+					var hw sync.WaitGroup
+					for k := range o2 {
+						hw.Add(1)
+						go func(k int) {
+							defer hw.Done()
+							o2[k] = verifkit.RunChild(dir, c28ChildTest, bd.file, i, 3*watchdog+time.Minute, "VERIF_CHILD_ONLY=1")
+						}(k)
+					}
+					hw.Wait()
+					hung, site := 0, ""
+					for k := range o2 {
+						if strings.HasPrefix(o2[k].Done[i], "HANG") || (o2[k].TimedOut && o2[k].CrashedAt == i) {
 							hung++
+							site = c28HangSite(o2[k].Output)
 						}
 					}
 					if hung == 2 {
-						run.Violation("C28/requests/hang/"+strings.SplitN(r.Class, "/", 3)[0]+"/"+strings.SplitN(r.Class, "/", 3)[1], fmt.Sprintf("request not answered within %s, reproduced alone 2/2", watchdog), c28Witness(r, map[string]any{"profile": bd.b.Profile}))
+						run.Violation("C28/requests/hang/"+site, fmt.Sprintf("request not answered within %s (still being processed in %s), reproduced alone 2/2", watchdog, site), c28Witness(r, map[string]any{"profile": bd.b.Profile}))
 					} else {
 						run.Count("hangs_not_reproduced", 1)
 						t.Logf("hang not reproduced alone: %s", r.Desc)
@@ -2181,6 +2208,12 @@ func TestVerif_C28Requests(t *testing.T) {
 					j = nreq - 1 // died while draining
 					witnessIdx = j
 				}
+				if attributed[sig] {
+					// only the first witness of a signature is written out; do not pay for more replays
+					run.Violation(sig, fmt.Sprintf("request crashed the node in %s: %s", out.Site, msg), c28Witness(&bd.b.Requests[j], nil))
+					continue
+				}
+				attributed[sig] = true
 				// cheap first: the request named by the WAL alone (handler-side crashes reproduce at once)
 				o2 := verifkit.RunChild(dir, c28ChildTest, bd.file, j, childTimeout, "VERIF_CHILD_ONLY=1")
 				if o2.CrashedAt >= 0 && o2.Site == out.Site {
@@ -2205,6 +2238,35 @@ func TestVerif_C28Requests(t *testing.T) {
 		}
 		os.Remove(bd.file)
 	}
+}
+
+// c28HangSite: innermost Refinery frame of the goroutine that is still serving the request,
+// taken from the goroutine dump the child writes when its watchdog fires.
+func c28HangSite(output string) string {
+	k := strings.Index(output, "VERIF-HANG request")
+	if k < 0 {
+		return "unknown"
+	}
+	for _, g := range strings.Split(output[k:], "\n\n") {
+		if !strings.Contains(g, "refinery/route.") || !(strings.Contains(g, "net/http.(*conn).serve") || strings.Contains(g, "grpc.(*Server).handleStream")) {
+			continue // not a goroutine serving a request of the node
+		}
+		if strings.Contains(g, "startSink") {
+			continue
+		}
+		lines := strings.Split(g, "\n")
+		for i, l := range lines {
+			if !strings.HasPrefix(l, "github.com/honeycombio/refinery/") || (i+1 < len(lines) && strings.Contains(lines[i+1], "zz_verif_")) {
+				continue
+			}
+			fn := strings.TrimPrefix(l, "github.com/honeycombio/refinery/")
+			if p := strings.LastIndex(fn, "("); p > 0 {
+				fn = fn[:p]
+			}
+			return fn
+		}
+	}
+	return "unknown"
 }
 
 func c28Tail28(s string, n int) string {
